@@ -99,10 +99,12 @@ def make_eigh_handler(eigen_equation=True, ascending=True, block=None, tag="S", 
         else:
             S1 = S.T.copy()
         npatch.tag_inverse(S, S1)
+        npatch.tag_inverse(S1, S)
         return S, S1
 
     def register(A, w, S, S1):
         npatch.tag_inverse(S, S1)
+        npatch.tag_inverse(S1, S)
         registry.append((A.copy(), w, S, S1, numpy.dot(S1, numpy.dot(A, S))))
 
     def handler(A):
